@@ -97,13 +97,19 @@ def raises_constraint(fn):
 # --------------------------------------------------------------------------- (a)
 
 def part_a(tier, i, n, seed, R):
-    md = 3 if tier == 'quick' else 4
     idx = -1
-    for dom, leaves, cands, mk in (
-            ('int', INT_LEAVES, INT_CANDS, lambda c: univ.Integer().subtype(subtypeSpec=c)),
-            ('str', STR_LEAVES, STR_CANDS, lambda c: char.PrintableString().subtype(subtypeSpec=c)),
-            ('wc', WC_LEAVES, WC_CANDS, None)):
-        for cd in trees(leaves, md if dom != 'wc' else min(md, 3)):
+    if tier == 'quick':
+        plan = (('int', INT_LEAVES, INT_CANDS, 3), ('str', STR_LEAVES, STR_CANDS, 3), ('wc', WC_LEAVES, WC_CANDS, 3))
+    else:
+        # depth 4 for integers in full; for strings depth 4 over 5 leaves and candidates of length <= 2
+        plan = (('int', INT_LEAVES, INT_CANDS, 4), ('str', STR_LEAVES, STR_CANDS, 3),
+                ('str', STR_LEAVES[:2] + STR_LEAVES[3:4] + STR_LEAVES[6:8], [s for s in STR_CANDS if len(s) <= 2], 4),
+                ('wc', WC_LEAVES, WC_CANDS, 3))
+    makers = {'int': lambda c: univ.Integer().subtype(subtypeSpec=c),
+              'str': lambda c: char.PrintableString().subtype(subtypeSpec=c), 'wc': None}
+    for dom, leaves, cands, md in plan:
+        mk = makers[dom]
+        for cd in trees(leaves, md):
             idx += 1
             if (idx + seed) % n != i:
                 continue
